@@ -9,10 +9,25 @@ Import ListNotations.
 
 Definition str := list ascii.
 
+(* ---- repair switches (stage 1: false = the code as it is; flipped by the coordinator together with the fix) ---- *)
+(* D99: OperatorTemplate.update_template pops 'add' out of the CALLER's edit dictionary (fixes/fix_D99.diff works on a copy) *)
+Definition fixed_D99 : bool := false.
+(* primed left-hand sides: the derivative mark ' is not in allowed_follow_ops, so `x'` is one identifier for replace
+   (fixes/fix_C15_prime_delim.diff adds ' to the set) *)
+Definition fixed_prime : bool := false.
+
 (* allowed_follow_ops = '-+=*/^<>=!.%@[]():, '   (parser.py line 708) *)
-Definition allowed_follow_ops : str := list_ascii_of_string "-+=*/^<>=!.%@[]():, ".
+Definition ops_base : str := list_ascii_of_string "-+=*/^<>=!.%@[]():, ".
+Definition quote : ascii := "039"%char.                                  (* the derivative mark ' *)
+Definition allowed_gen (fx : bool) : str := if fx then ops_base ++ [quote] else ops_base.
+Definition allowed_follow_ops : str := allowed_gen fixed_prime.
 Definition memc (c : ascii) (l : str) : bool := existsb (Ascii.eqb c) l.
+Definition is_delim_gen (fx : bool) (c : ascii) : bool := memc c (allowed_gen fx).
 Definition is_delim (c : ascii) : bool := memc c allowed_follow_ops.
+(* Spec: where an identifier ends for the READER of an equation — `x' = -x/tau` is the differential equation of x (the
+   form is accepted by the equation parser and used by shipped templates: qif.yaml "a' = x/tau_a") *)
+Definition is_delim_spec (c : ascii) : bool := is_delim_gen true c.
+Definition prime_free (s : str) : bool := negb (memc quote s).
 
 Fixpoint str_eqb (a b : str) : bool :=
   match a, b with
@@ -230,4 +245,21 @@ Section OpUpdate.
   (* the BASE template is left as it is: since fix D44 the code works on `dict(self.variables)`, a copy (before that the
      rogue variables were popped from the base's own dict when no `variables` argument was given; the witness is kept as
      regression case corpus/C15/D35_base_mutated.json and the correspondence run observes the base after every call) *)
+  (* D99: what the CALLER's `equations` argument is after the call: `new_eqs = equations.pop('add', [])` removes the key from the
+     caller's own dictionary (unless repaired: the method works on a copy) *)
+  Definition edit_after_gen (fx : bool) (u : eq_update) : eq_update :=
+    if fx then u else match u with EqEdit e _ => EqEdit e [] | _ => u end.
+  (* k derivations from the same base with the SAME edit dictionary object *)
+  Fixpoint derive_reusing_gen (fx : bool) (k : nat) (beqs : list str) (bvars : list (str * V)) (u : eq_update) (vupd : list (str * V))
+    : list (option (list str * list (str * V))) :=
+    match k with
+    | O => []
+    | S k' => update_op beqs bvars u vupd :: derive_reusing_gen fx k' beqs bvars (edit_after_gen fx u) vupd
+    end.
+  Definition derive_reusing := derive_reusing_gen fixed_D99.
+  (* Spec: identical arguments give identical derived templates *)
+  Definition derive_spec (k : nat) (beqs : list str) (bvars : list (str * V)) (u : eq_update) (vupd : list (str * V)) :=
+    repeat (update_op beqs bvars u vupd) k.
+  Definition reuse_guard (k : nat) (u : eq_update) : bool :=
+    match u with EqEdit _ (_ :: _) => Nat.leb k 1 | _ => true end.
 End OpUpdate.
